@@ -34,6 +34,10 @@ def _run_one(args):
     from symex import harness
     mod = importlib.import_module(f"props.{prop.lower()}")
     job = mod.jobs(tier)[idx]
+    if tier == "quick":
+        # on the unchanged tree the slowest quick job takes ~20 s; a changed tree can blow a job up (e.g. np.isclose inside a
+        # rolling window) - stop exploring after 5 min (violations found so far are kept, the rest is reported inconclusive)
+        job.max_seconds = min(job.max_seconds, int(os.environ.get("VERIF_JOB_SECONDS", "300")))
     try:
         return harness.run_job(job, seed=seed, replay_dir=os.path.join(EVDIR, "replays"),
                                cross_check=(40 if tier == "thorough" else 0))
